@@ -541,6 +541,21 @@ class AEval:
         elif k == 'decl' and self.typed and a[2] is not None and _mutable_ref(a[1]) and not ((a[1] or '').rstrip().endswith('&&') and self._is_temporary(a[2])):
             # T& x = <lvalue>: the name designates the storage of the initialiser
             it = self._ity((a[1] or '').rstrip()[:-1])
+            src_ = a[2]
+            while src_.k == 'cast':
+                src_ = src_.a[2]
+            if src_.k == 'call' and it is None:
+                # T& x = f(...): a reference to the object a function hands out (a slot of a pool, a member) - objects are shared by
+                # identity in the abstraction, so the name simply designates that object; a reference to an integer cell is not followed
+                v_ = self.ev(a[2], env, depth)
+                if isinstance(v_, Ref):
+                    v_ = v_.get()
+                if not isinstance(v_, AObj):
+                    raise AnalysisError('abstract evaluation: %s is bound to the result of a call that is not an object (%s)' % (a[0], s.loc))
+                env[a[0]] = v_
+                env.pop('\x00ref:' + a[0], None)
+                env.pop('\x00ptr:' + a[0], None)
+                return
             env[a[0]] = self.ref_of(a[2], env, depth)
             env['\x00ref:' + a[0]] = True
             if it is not None:
